@@ -140,6 +140,8 @@ def build_tasks(tier, seed):
         tasks.append((('mink',), p, False, (16, 32), seed))
         tasks.append((('mink',), p, True, (16, 32), seed))
     tasks.append((('ds',), 4, False, (14, 20), seed))
+    # vacuum option ('no matter') together with a cosmological constant
+    tasks.append((('ds',), 4, True, (14, 20), seed))
     return tasks
 
 
